@@ -101,8 +101,9 @@ func (g *FuncGen) specType(ty string, pkg *types.Package) (types.Type, Sort) {
 			cands = append(cands, p)
 			cands = append(cands, p.Imports()...)
 		}
+		want := g.aliasTargets(pn, pkg)
 		for _, p := range cands {
-			if p.Name() == pn || p.Path() == pn {
+			if p.Name() == pn || p.Path() == pn || want[p.Path()] {
 				if obj := p.Scope().Lookup(tn); obj != nil {
 					if t, ok := obj.(*types.TypeName); ok {
 						return t.Type(), ""
@@ -154,6 +155,23 @@ func (g *FuncGen) specType(ty string, pkg *types.Package) (types.Type, Sort) {
 	}
 	g.unsup("spec type %s not found", ty)
 	return nil, ""
+}
+
+// aliasTargets: import paths that the alias name stands for (in pkg's source files, else in any loaded package).
+func (g *FuncGen) aliasTargets(alias string, pkg *types.Package) map[string]bool {
+	out := map[string]bool{}
+	if pkg != nil {
+		if p, ok := g.prog.ImportAliases[pkg.Path()][alias]; ok {
+			out[p] = true
+			return out
+		}
+	}
+	for _, m := range g.prog.ImportAliases {
+		if p, ok := m[alias]; ok {
+			out[p] = true
+		}
+	}
+	return out
 }
 
 func (g *FuncGen) lookupName(env *Env, name string) (Val, bool) {
@@ -683,8 +701,9 @@ func (g *FuncGen) trField(env *Env, x *EField) Val {
 				cands = append(cands, p)
 				cands = append(cands, p.Imports()...)
 			}
+			want := g.aliasTargets(id.Name, env.pkg)
 			for _, p := range cands {
-				if p.Name() == id.Name {
+				if p.Name() == id.Name || want[p.Path()] {
 					if obj := p.Scope().Lookup(x.Name); obj != nil {
 						if cst, ok := obj.(*types.Const); ok {
 							return g.constObj(cst)
